@@ -156,6 +156,8 @@ type hist struct {
 	units  []hUnit
 	ext    map[string][]string // f32/f64/tz/civil assoc entries
 	bias   int64               // large-offset histories: every offset past a file's head FDE is moved up by this much
+	noise  []string            // "<i>:<hex>": packets sent right after laid-out event i (ignorable events, unknown statements)
+	crcmix bool                // the checksum setting alternates from one binlog file to the next
 	pad    bool                // ROWS events carry their bitmaps with the padding bits set, as real masters write them
 	empty  bool                // the replica starts at ("", 4): "oldest binlog"; labels carry "" until the first ROTATE
 }
@@ -182,6 +184,12 @@ func (h *hist) line(p string, extra ...string) string {
 	}
 	if h.pad {
 		s += " pad=1"
+	}
+	if h.crcmix {
+		s += " crcmix=1"
+	}
+	if len(h.noise) > 0 {
+		s += " noise=" + strings.Join(h.noise, ";")
 	}
 	for _, k := range []string{"f32", "f64", "tz", "civil"} {
 		if len(h.ext[k]) > 0 {
@@ -466,6 +474,15 @@ func genTables(r *RNG, o histOpts) []*hTable {
 		}
 		ts = append(ts, t)
 	}
+	if len(ts) >= 2 && r.Chance(1, 8) {
+		// two different tables whose dotted / quoted renderings coincide: only the (database, table) PAIR identifies one
+		ts[0].db, ts[0].name = "a.b", "c"
+		ts[1].db, ts[1].name = "a", "b.c"
+		if r.Bool() {
+			ts[0].db, ts[0].name = "a`.`b", "c"
+			ts[1].db, ts[1].name = "a", "b`.`c"
+		}
+	}
 	return ts
 }
 
@@ -660,7 +677,51 @@ func genHistory(r *RNG, o histOpts, cfg string) *hist {
 			h.units = append(h.units, hUnit{kind: "ddl", stmt: genStmt(r, "create", o, ts)})
 		}
 	}
+	if fileNo > 1 && r.Chance(1, 3) {
+		h.crcmix = true // binlog_checksum was changed between files
+	}
+	if o.ignorable && !h.crcmix && r.Chance(1, 3) {
+		addNoise(r, h) // (noise packets are built for one checksum setting: not combined with crcmix)
+	}
 	return h
+}
+
+// addNoise sprinkles 1..3 packets a real master may send anywhere — also between BEGIN and the commit event — and that
+// the replica must ignore: heartbeats, GTID-family events, STOP, USER_VAR, XA_PREPARE, unknown type codes, and QUERY
+// events whose statement the parser does not know (SAVEPOINT, FLUSH, GRANT, XA …).
+func addNoise(r *RNG, h *hist) {
+	if theDriver == nil {
+		return
+	}
+	ans, err := theDriver.Ask(h.line(posStr(firstFile, 4)))
+	if err != nil {
+		return
+	}
+	nlaid := len(splitPackets(fields(ans)["packets"])) - 1
+	if nlaid < 2 {
+		return
+	}
+	crc := h.cfg[0] == '1'
+	for k, n := 0, r.Range(1, 3); k < n; k++ {
+		var pk []byte
+		if r.Bool() {
+			pk = mkEvent(byte(r.Pick(27, 33, 34, 35, 3, 14, 38, 36, 37, 39, 40, 160, 255)), r.Bytes(r.Intn(40)), crc)
+		} else {
+			sql := r.Pickstr("SAVEPOINT sp1", "savepoint `a`", "flush tables", "GRANT x", "analyze table t", "xa start 'a'", "", "release savepoint sp1", "/* c */ x")
+			line := fmt.Sprintf("wev kind=query thread=%d exec=0 err=0 vars= db=%s sql=%s cs=N ts=%d sid=1 flags=0 start=4", r.Intn(1000), hx([]byte(randName(r, r.Intn(4)))), hx([]byte(sql)), 1600000000+r.Intn(1000))
+			if crc {
+				line += " crc=" + hx(r.Bytes(4))
+			}
+			a2, err := theDriver.Ask(line)
+			if err != nil {
+				continue
+			}
+			pk = unhx(fields(a2)["bytes"])
+		}
+		if len(pk) >= 19 {
+			h.noise = append(h.noise, fmt.Sprintf("%d:%s", r.Intn(nlaid), hx(pk)))
+		}
+	}
 }
 
 func (r *RNG) Pickstr(xs ...string) string { return xs[r.Intn(len(xs))] }
